@@ -51,11 +51,13 @@ type concWorld struct {
 	setup [][]string
 	reads atomic.Int64
 	bound int
+	// parkAt: a parked reader parks inside its parkAt-th callback (1 = at the first element, 2 = in the middle of [1 2 3])
+	parkAt int
 }
 
 func newConc(r *hx.Run, w *world) *concWorld {
 	return &concWorld{r: r, w: w, l: [2]ds.List[int]{w.l[0].(hiveL).l, w.l[1].(hiveL).l}, h: map[int]ds.ListElement[int]{},
-		next: concBase, bound: 4096}
+		next: concBase, bound: 4096, parkAt: 1}
 }
 
 // setupOp runs one sequential op of the setup on the hive world; the Lean driver follows it like any other line.
@@ -110,10 +112,9 @@ func csv(vs []int) string {
 // called inside the callback at the first element, i.e. while the read lock is held.
 func (cw *concWorld) read(c *ccall, l ds.List[int], rev bool, park func()) []int {
 	var got []int
-	first := true
+	n := 0
 	cb := func(v int) bool {
-		if first && park != nil {
-			first = false
+		if n++; n == cw.parkAt && park != nil {
 			park()
 		}
 		if len(got) >= cw.bound {
@@ -500,9 +501,9 @@ func waitCalls(r *hx.Run, done chan string, n int, mode string, sig map[string]s
 // callback (read lock held); the whole-list push is started and reaches the mutex; behind it a reader and (optionally)
 // a writer are started; the parked reader is released. In a list whose whole-list push is ONE operation the queued
 // reader sees A before or after the whole block, and the writer's element lands outside the block.
-func forcedWholePush(r *hx.Run, idx int, push, src, reader string, writer []string) {
+func forcedWholePush(r *hx.Run, idx int, push, src, reader string, writer []string, wfirst bool) {
 	mode := "forced-" + push
-	sig := map[string]string{"source": src, "reader": reader, "writer": "none"}
+	sig := map[string]string{"source": src, "reader": reader, "writer": "none", "order": map[bool]string{false: "call-first", true: "writer-first"}[wfirst]}
 	if writer != nil {
 		sig["writer"] = writer[0]
 	}
@@ -511,10 +512,11 @@ func forcedWholePush(r *hx.Run, idx int, push, src, reader string, writer []stri
 	if writer != nil {
 		wtok = strings.Join(writer, ";")
 	}
-	r.Line("sched forced "+push+" "+src+" "+reader+" "+wtok, "ok") // what --replay re-runs on the real code
+	r.Line("sched forced "+push+" "+src+" "+reader+" "+wtok+" "+strconv.FormatBool(wfirst), "ok") // what --replay re-runs on the real code
 	w := newHive("hive", false, src == "lf")
 	defer w.close()
 	cw := newConc(r, w)
+	cw.parkAt = 2 // the parked reader has delivered one value and sits on the middle element
 	for _, op := range []string{"pb A 1", "pb A 2", "pb A 3", "pb B 11", "pb B 12", "pb B 13", "pb B 14"} {
 		if !cw.setupOp(op) {
 			return
@@ -536,7 +538,11 @@ func forcedWholePush(r *hx.Run, idx int, push, src, reader string, writer []stri
 		n++
 		go func() { done <- cw.call(f, park) }()
 	}
-	start([]string{"vals", "A"}, func() { close(parked); <-release })
+	parkedKind := "vals"
+	if idx%2 == 1 {
+		parkedKind = "rvals"
+	}
+	start([]string{parkedKind, "A"}, func() { close(parked); <-release })
 	select {
 	case <-parked:
 	case <-time.After(20 * time.Second):
@@ -545,10 +551,14 @@ func forcedWholePush(r *hx.Run, idx int, push, src, reader string, writer []stri
 
 		return
 	}
+	if wfirst && writer != nil {
+		start(writer, nil) // the other writer reaches the mutex first; the call under test queues behind it
+		time.Sleep(4 * time.Millisecond)
+	}
 	start(first, nil)
 	time.Sleep(4 * time.Millisecond) // the call has done whatever it does before Lock() and waits for the mutex
 	start([]string{reader, "A"}, nil)
-	if writer != nil {
+	if !wfirst && writer != nil {
 		start(writer, nil)
 	}
 	time.Sleep(4 * time.Millisecond) // reader and writer are queued behind the pending writer
@@ -818,9 +828,13 @@ func concurrentHistories(r *hx.Run) {
 		for _, push := range []string{"pbl", "pfl"} {
 			for _, src := range []string{"ts", "lf", "self"} {
 				for _, reader := range []string{"vals", "rvals", "len"} {
-					for _, wr := range writers {
+					for wi, wr := range writers {
 						idx++
-						forcedWholePush(r, idx, push, src, reader, wr)
+						forcedWholePush(r, idx, push, src, reader, wr, false)
+						if wr != nil && (wi+len(reader))%2 == 0 {
+							idx++
+							forcedWholePush(r, idx, push, src, reader, wr, true)
+						}
 					}
 				}
 			}
@@ -835,9 +849,9 @@ func concurrentHistories(r *hx.Run) {
 				if first == "init;A" {
 					ws = [][]string{nil, {"pb", "A", "99"}, {"pf", "A", "98"}} // no handle of A is used after its Init
 				}
-				for _, wr := range ws {
+				for wi, wr := range ws {
 					idx++
-					forcedWholePush(r, idx, first, "ts", reader, wr)
+					forcedWholePush(r, idx, first, "ts", reader, wr, wi == 2 && reader == "rvals")
 				}
 			}
 		}
@@ -861,13 +875,13 @@ func replaySched(r *hx.Run, lines []string) bool {
 			continue
 		}
 		switch {
-		case len(f) == 6 && f[1] == "forced":
+		case len(f) == 7 && f[1] == "forced":
 			var writer []string
 			if f[5] != "none" {
 				writer = strings.Split(f[5], ";")
 			}
-			for i := 1; i <= 5; i++ {
-				forcedWholePush(r, i, f[2], f[3], f[4], writer)
+			for i := 1; i <= 6; i++ {
+				forcedWholePush(r, i, f[2], f[3], f[4], writer, f[6] == "true")
 			}
 
 			return true
